@@ -71,7 +71,10 @@ func coqTraversal(t hcl.Traversal) string {
 }
 
 func coqExpr(e hclsyntax.Expression) string {
-	vars := e.Variables()
+	// the root-scope references computed from the AST by the harness (vars.go),
+	// NOT e.Variables(): the loader model must expose every reference of the
+	// source, so a walker that drops one shows up as a disagreement
+	vars := refVarsOrNative(e)
 	ts := make([]string, len(vars))
 	for i, v := range vars {
 		ts[i] = coqTraversal(v)
